@@ -124,6 +124,35 @@ Theorem C02_rich_iter_total : forall hist pool, Forall ItersProofs.rich_inv pool
 Proof. exact ItersProofs.rich_no_fault. Qed.
 Print Assumptions C02_rich_iter_total.
 
+(* imports: directory, descriptors, name and address tables, thunk decoding (after F38) *)
+From PV.Model Require Imports Dirs Resources.
+From PV.Proofs Require ImportsProofs DirsProofs ResourcesProofs.
+Theorem C02_imports_total : forall p d rva,
+  no_fault (Imports.imports p) /\ no_fault (Imports.iat p) /\ no_fault (Imports.dll_name p d) /\ no_fault (Imports.desc_iat p d) /\
+  no_fault (Imports.desc_int p d) /\ no_fault (Imports.thunks p rva).
+Proof. exact ImportsProofs.tables_no_fault. Qed.
+Print Assumptions C02_imports_total.
+Theorem C02_import_from_va_total : forall p t, no_fault (Imports.import_from_va p t).
+Proof. exact ImportsProofs.import_from_va_no_fault. Qed.
+Print Assumptions C02_import_from_va_total.
+
+(* exception, security, debug, TLS and load config directories (after F8, F17) *)
+Theorem C02_directories_total : forall v dd t pc f d r image,
+  DirsProofs.bytes_lt (v_get v) -> v_addr v mod 4 = 0 ->
+  no_fault (Dirs.exception_try_from v dd) /\ no_fault (Dirs.index_of t pc) /\ no_fault (Dirs.lookup_function_entry t pc) /\
+  no_fault (Dirs.function_bytes v f) /\ no_fault (Dirs.unwind_info v f) /\
+  no_fault (Dirs.security_try_from v dd) /\ (forall s, Dirs.security_try_from v dd = Ok s -> no_fault (Dirs.certificate_data s)) /\
+  no_fault (Dirs.debug_try_from v dd) /\ no_fault (Dirs.dir_entry v d) /\ no_fault (Dirs.pgo_iter (v_get v) image) /\
+  no_fault (Dirs.tls_try_from v dd) /\ no_fault (Dirs.tls_raw_data v r) /\ no_fault (Dirs.tls_slot v r) /\ no_fault (Dirs.tls_callbacks v r) /\
+  no_fault (Dirs.load_config_try_from v dd) /\ no_fault (Dirs.lc_security_cookie v r) /\ no_fault (Dirs.lc_se_handler_table v r).
+Proof. exact DirsProofs.all_no_fault. Qed.
+Print Assumptions C02_directories_total.
+
+(* resources: the consistency check on ANY section bytes, including directories that contain themselves (after F4, F16) *)
+Theorem C02_resources_fsck_total : forall s, no_fault (Resources.fsck s).
+Proof. exact ResourcesProofs.fsck_no_fault. Qed.
+Print Assumptions C02_resources_fsck_total.
+
 (* panics of the code as it stood, repaired in /repo (each also listed under its own property) *)
 Theorem C02_F25_rva_to_va_orig_refuted :
   rva_to_va_orig {| v_file := true; v_addr := 0; v_len := 0; v_get := fun _ => 0; v_w := W32;
